@@ -6,7 +6,7 @@
 import Mathlib.Algebra.Field.Basic
 import Mathlib.Tactic.Ring
 namespace PyXAB.Published
-variable {α : Type} [Field α] (sqrt log ceil : α → α) (rpow : α → α → α)
+variable {α : Type} [Field α] (sqrt log ceil floor : α → α) (rpow : α → α → α) (min2 : α → α → α)
 
 /-- T-HOO: `U = mean + sqrt(2 ln n / T) + ν ρ^h` -/
 def hooU (nu rho rounds mean T h : α) : α := mean + sqrt (2 * log rounds / T) + nu * rpow rho h
@@ -43,5 +43,24 @@ def vroomLcb (n delta mean T : α) : α := mean - sqrt (log (4 * n ^ 3 / delta) 
 
 /-- running mean `(V·k + r)/(k+1)` (POO / GPO scores, Zooming averages) -/
 def runningMean (V k r : α) : α := (V * k + r) / (k + 1)
+
+/-- HCT/VHCT `δ̃ = min(cap, c1·δ / t⁺)` (cap = 1/2 for the thresholds, 1 for the U-values) -/
+def hctDt (cap c1 delta tplus : α) : α := min2 cap (c1 * delta / tplus)
+
+/-- GPO: `N = ceil(½ · D_max · ln((n/2)/ln(n/2)))`, `D_max = ln 2 / ln(1/ρ_max)` -/
+def gpoN (rhomax n : α) : α := ceil (1 / 2 * (log 2 / log (1 / rhomax)) * log (n / 2 / log (n / 2)))
+
+/-- GPO: phase half-length `floor(n / (2N))` -/
+def gpoHalf (n N : α) : α := floor (n / (2 * N))
+
+/-- POO / GPO learner grid `ρ_max^(2N/(2i+1))` -/
+def gridRho (rhomax N i : α) : α := rpow rhomax (2 * N / (2 * i + 1))
+
+/-- POO: right-hand side of the start / continuation test `N ≤ ½ · D_max · ln(n / ln n)` -/
+def pooBound (Dmax n : α) : α := 1 / 2 * Dmax * log (n / log n)
+
+/-- Zooming confidence radius `sqrt(8·phase/(2 + pulls))` and refinement threshold `ν ρ^h` -/
+def zoomRadius (phase pulls : α) : α := sqrt (8 * phase / (2 + pulls))
+def zoomThreshold (nu rho h : α) : α := nu * rpow rho h
 
 end PyXAB.Published
